@@ -4,7 +4,7 @@
 # The target decodes libFuzzer's bytes into a case of the property and runs the property's oracle on it.
 # Exit 0 = no violation (or no target for this property), 1 = VIOLATION line printed, 2 = build problem.
 ID="$1"
-case "$ID" in C12) DEF=30000 ;; C13) DEF=40000 ;; *) DEF=150000 ;; esac   # C12 touches the disk, C13 starts a reloader per case
+case "$ID" in C12) DEF=30000 ;; C13|C02) DEF=40000 ;; *) DEF=150000 ;; esac   # C12 touches the disk, C13 and C02 start reloaders in every case
 RUNS="${2:-${VERIF_FUZZ_RUNS:-$DEF}}"
 case "$ID" in C02|C03|C12|C13|C16|C18) ;; *) exit 0 ;; esac
 T=$(echo "$ID" | tr C c)
